@@ -273,3 +273,129 @@ func checkP4a(r *core.Run, f *ScopeFunc, table string) {
 		return true
 	})
 }
+
+// checkP4b: `x, _ := f()` where f reports failure in its last result (bool or
+// error) and x is a pointer, map or interface: on failure x is nil by the
+// usual contract ((*big.Rat).SetString, map lookups wrapped in helpers, …), so
+// a method call through x or a dereference of x needs a nil test.
+func checkP4b(r *core.Run, f *ScopeFunc, table string) {
+	r.Rule("R-PANIC/P4b", "a pointer, map or interface result whose accompanying ok/error result is discarded with the blank identifier must not be dereferenced or used as a method receiver without a dominating nil test: on failure the callee returns nil")
+	info := f.Pkg.TypesInfo
+	type cand struct {
+		obj  types.Object
+		call string
+		pos  token.Pos
+	}
+	var cands []cand
+	f.InspectOwn(func(n ast.Node) bool {
+		as, ok := n.(*ast.AssignStmt)
+		if !ok || len(as.Rhs) != 1 || len(as.Lhs) < 2 {
+			return true
+		}
+		call, ok := core.Unparen(as.Rhs[0]).(*ast.CallExpr)
+		if !ok {
+			return true
+		}
+		last, ok := as.Lhs[len(as.Lhs)-1].(*ast.Ident)
+		if !ok || last.Name != "_" {
+			return true
+		}
+		tup, ok := info.TypeOf(call).(*types.Tuple)
+		if !ok || tup.Len() != len(as.Lhs) {
+			return true
+		}
+		lt := tup.At(tup.Len() - 1).Type()
+		isFail := types.Identical(lt, types.Universe.Lookup("error").Type())
+		if b, ok := lt.Underlying().(*types.Basic); ok && b.Kind() == types.Bool {
+			isFail = true
+		}
+		if !isFail {
+			return true
+		}
+		id, ok := as.Lhs[0].(*ast.Ident)
+		if !ok || id.Name == "_" {
+			return true
+		}
+		switch tup.At(0).Type().Underlying().(type) {
+		case *types.Pointer:
+		default:
+			return true // maps and interfaces: reading a nil map is fine, nil interfaces are covered by P3/P6
+		}
+		obj := info.Defs[id]
+		if obj == nil {
+			obj = info.Uses[id]
+		}
+		// a callee of this module that never returns a nil literal in its first
+		// result uses the flag for something else (refTo: "already existed")
+		if fn := core.CalleeFunc(info, call); fn != nil && fn.Pkg() != nil && core.IsSource(fn.Pkg().Path()) {
+			if !mayReturnNilFirst(r.P, fn.Name()) {
+				return true
+			}
+		}
+		if obj != nil {
+			cands = append(cands, cand{obj, core.ExprStr(call.Fun), as.Pos()})
+		}
+		return true
+	})
+	if len(cands) == 0 {
+		return
+	}
+	for _, c := range cands {
+		c := c
+		f.InspectOwn(func(n ast.Node) bool {
+			var recv ast.Expr
+			switch x := n.(type) {
+			case *ast.SelectorExpr:
+				recv = x.X
+			case *ast.StarExpr:
+				recv = x.X
+			default:
+				return true
+			}
+			id, ok := core.Unparen(recv).(*ast.Ident)
+			if !ok || info.Uses[id] != c.obj || n.Pos() < c.pos {
+				return true
+			}
+			// calling a method with a pointer receiver on nil only panics when the
+			// method dereferences; treat every use through the pointer as a dereference
+			o := r.Add("R-PANIC/P4b", siteKey(f, fmt.Sprintf("%s from %s(…) with its ok/error discarded", id.Name, c.call)), n.Pos(), "use of "+id.Name+" whose failure flag was discarded")
+			facts := FactsAt(info, f.Body, n)
+			switch {
+			case facts.NonNil[id.Name]:
+				o.Auto("dominated by a nil test of %s", id.Name)
+			case r.Table(table, o):
+			default:
+				o.Fail("%s comes from %s(…) whose ok/error result is discarded; when the call fails %s is nil and this use panics", id.Name, c.call, id.Name)
+			}
+			return false
+		})
+	}
+}
+
+// mayReturnNilFirst: some function or method of that name in the module has a
+// return statement whose first result is the nil literal (interface methods
+// are resolved by name: every implementation is looked at).
+func mayReturnNilFirst(p *core.Prog, name string) bool {
+	found, any := false, false
+	for path, pk := range p.ByPkg {
+		if !core.IsSource(path) {
+			continue
+		}
+		core.AllFuncDecls(pk, func(fd *ast.FuncDecl) {
+			if fd.Name.Name != name || fd.Body == nil {
+				return
+			}
+			any = true
+			ast.Inspect(fd.Body, func(n ast.Node) bool {
+				if _, isLit := n.(*ast.FuncLit); isLit {
+					return false
+				}
+				if ret, ok := n.(*ast.ReturnStmt); ok && len(ret.Results) > 1 && core.IsNilIdent(pk.TypesInfo, ret.Results[0]) {
+					found = true
+				}
+				return true
+			})
+		})
+	}
+	return found || !any
+}
